@@ -78,6 +78,18 @@ def wif(E, R, compressed, testnet):
         return "undecodable"
     E.check_eq(back.k, ser(k, 32), "from_wif(wif(k)).k == ser256(k)")
     E.check_eq(back.K.sec(), E.H.sec(k), "from_wif(wif(k)) has public key k*G")
+    # a key that was imported from one flavour exports every flavour it is asked for
+    for c2 in (True, False):
+        for t2 in (False, True):
+            w2 = E.run(back.wif, c2, t2)
+            if isinstance(w2, Raised):
+                E.fail("imported key: wif(compressed, testnet) has the payload of the flavour asked for")
+                continue
+            E.check_eq(cm.b58_payload(E, R, w2), (b"\xef" if t2 else b"\x80") + ser(k, 32) + (b"\x01" if c2 else b""),
+                       "imported key: wif(compressed, testnet) has the payload of the flavour asked for")
+            w3 = E.run(back.wif, compressed=c2, testnet=t2)
+            E.check_eq(w3 if isinstance(w3, Raised) else cm.b58_payload(E, R, w3), cm.b58_payload(E, R, w2),
+                       "keyword and positional flavour arguments agree")
     return "ok"
 
 
@@ -117,6 +129,7 @@ def sec_reject(E, R, n):
         return "rejected-len"
     if isinstance(r, Raised):
         return "rejected"
+    E.check(E.H.sec_valid(b), "an accepted SEC encoding is a point on the curve (off-curve coordinates are rejected)")
     if n == 33:
         p = b[0]
         E.check((p == 2) | (p == 3) if E.symbolic else p in (2, 3), "compressed SEC with a wrong prefix byte is rejected")
@@ -147,7 +160,8 @@ def cases(tier):
     for comp in (True, False):
         cs.append(Case("sec_roundtrip[%s]" % comp, "sec_roundtrip", dict(compressed=comp), need=("parse(sec(c)).sec(c) == sec(c)",)))
     for n in (0, 1, 32, 33, 34, 64, 65, 66):
-        cs.append(Case("sec_reject[%d]" % n, "sec_reject", dict(n=n)))
+        cs.append(Case("sec_reject[%d]" % n, "sec_reject", dict(n=n),
+                       need=("an accepted SEC encoding is a point on the curve (off-curve coordinates are rejected)",) if n in (33, 64, 65) else ()))
     return cs
 
 
